@@ -53,6 +53,25 @@ theorem C19_attachment (name : List Char) (ls : List (List Char)) (h : ok name l
   simp only [Bool.and_eq_true] at h
   exact h.1.1.2
 
+/-- … and every sub-profile holds the local include named after it *inside its own block* (between its header and the
+`}` at the header's indentation): for every way of cutting the file at a sub-profile header -/
+theorem C19_sub_include_in_block (name : List Char) (pre : List (List Char)) (l : List Char) (rest : List (List Char))
+    (s : List Char) (h : ok name (pre ++ l :: rest) = true)
+    (hl : indented l = true) (hp : "profile ".toList.isPrefixOf (dropSpaces l) = true) (hs : (words l)[1]? = some s) :
+    ∃ x ∈ blockBody (indentOf l) rest, dropSpaces x = localInclude (name ++ '_' :: s) := by
+  unfold ok subIncludesOk at h
+  simp only [Bool.and_eq_true] at h
+  have hin := h.2.2
+  clear h
+  induction pre with
+  | nil =>
+    simp only [List.nil_append, subIncludesIn, hl, hp, Bool.and_self, if_true, hs, Bool.and_eq_true, List.any_eq_true,
+      beq_iff_eq] at hin
+    exact hin.1
+  | cons a as ih =>
+    simp only [List.cons_append, subIncludesIn, Bool.and_eq_true] at hin
+    exact ih hin.2
+
 /-- non-vacuity: a conforming file, and one that lacks the sub-profile include -/
 def sample : List (List Char) := splitNl
   "abi <abi/4.0>,\n\ninclude <tunables/global>\n\n@{exec_path} = @{bin}/foo\nprofile foo @{exec_path} flags=(complain) {\n  include <abstractions/base>\n\n  profile bar {\n    include if exists <local/foo_bar>\n  }\n\n  include if exists <local/foo>\n}\n".toList
@@ -61,5 +80,12 @@ example : ok "foo".toList sample = true := by decide +kernel
 example : ok "foo".toList (sample.filter (fun l => l != "    include if exists <local/foo_bar>".toList)) = false := by
   decide +kernel
 example : ok "fo".toList sample = false := by decide +kernel
+
+/-- two sub-profiles whose local includes are swapped: both lines are in the file, each in the other's block -/
+def swapped : List (List Char) := splitNl
+  "abi <abi/4.0>,\n\n@{exec_path} = @{bin}/foo\nprofile foo @{exec_path} {\n  profile a {\n    include if exists <local/foo_b>\n  }\n\n  profile b {\n    include if exists <local/foo_a>\n  }\n\n  include if exists <local/foo>\n}\n".toList
+
+example : ok "foo".toList swapped = false ∧ report "foo".toList swapped = ["sub-profile-local-include"] := by
+  constructor <;> decide +kernel
 
 end C19
